@@ -158,7 +158,7 @@ def run(chk):
                     mb = 1
                 traces[2] += drv.explore(be, kind, pr, e, max_batch=mb)
             for i, pr in enumerate(progs3.get(kind, [])):
-                if i % (12 if be == "sqlite" else 4):
+                if i % (15 if be == "sqlite" else 5):
                     continue
                 traces[3] += drv.explore(be, kind, pr, e, max_batch=1)
         n_impl = len(traces[2]) + len(traces[3])
@@ -243,7 +243,7 @@ def run(chk):
     chk.exhaustive = True      # every program of the quick instance, every command order at quiescence points
     chk.assumptions += [
         "thorough tier adds the wide-alphabet and three-process instances: TLC checks them exhaustively, the real "
-        "stores run every 2nd-12th program of those instances (all singleton command orders of each); the strict "
+        "stores run every 2nd-15th program of those instances (all singleton command orders of each); the strict "
         "property on the three-process design systems is implied by the carved-out run (kf is only ever set when "
         "Dev_SqliteSetStateNoLock is TRUE)",
         "CPython asyncio.Lock internals (_locked/_waiters) and the stores' private state (_state / the database "
